@@ -2,6 +2,7 @@ import SafeNet.Driver.Util
 import SafeNet.Base.Sha256
 import SafeNet.Model.Store
 import SafeNet.Model.StoreStart
+import SafeNet.Model.StoreFault
 /-!
 Line protocol of the record-store model (`drv_store`), one output line per op line:
 
@@ -16,6 +17,12 @@ key <k> <dist>                 distance of key k to the node (data from the harn
 put <k> <v> <rt>               rt = c | s | n<v>                                     -> ok | dedup | max
 remove <k> | setrange <r> | cleanup | payment                                         -> ok
 run <id>                                                                              -> ran | ran add | illegal-choice | no-task
+runfail <id> open | full <b>   write task <id> runs with a disk fault: the open fails / only b bytes fit
+                                                                                      -> ran fail | ran add | illegal-choice | no-task
+runany <id>                    (replay only) task <id> runs although an older task of its key is pending  -> ran | ran add | no-task
+lifo <k> <v> <rt> [<k> <v> <rt> …]  (replay only) the puts are made back to back from one tokio worker task; the spawned
+                               tasks then run in the worker's own order (last spawned first, then spawn order) -> <put results>
+flen <k>                       length of key k's record file                          -> absent | <n>
 deliver <id>                                                                          -> ok | illegal-choice | no-note
 crash [<id>:<n> ...]           stop (tearing these writes), reopen                    -> ok | illegal-choice
 start <netid>                  stop if running; check_and_wipe_storage_dir_if_necessary for this network id, then
@@ -42,6 +49,8 @@ structure DSt where
   up : Bool := true
   /-- the store sits inside a real node `SwarmDriver` (`initcmd`) -/
   cmd : Bool := false
+  /-- which pending notifications are `RemoveFailedLocalRecord` commands (`Model/StoreFault`) -/
+  failed : List Nat := []
 
 def distOf (dists : List (Nat × Nat)) (k : Nat) : Nat := (lookup k dists).getD 0
 
@@ -99,9 +108,37 @@ def outStr : Out → String
   | .ok => "ok"
   | .illegal => "illegal-choice"
 
-def apply (d : DSt) (op : Op) : DSt × String :=
-  let r := SafeNet.Store.step d.cfg (distOf d.dists) d.st op
-  ({ d with st := r.1 }, outStr r.2)
+def foutStr : FOut → String
+  | .base o => outStr o
+  | .run .ranAdd => "ran add"
+  | .run .ranFail => "ran fail"
+  | .run .ranSilent => "ran"
+  | .run .illegal => "illegal-choice"
+  | .run .noTask => "no-task"
+
+def fapply (d : DSt) (op : FOp) : DSt × String :=
+  let r := SafeNet.Store.fstep d.cfg (distOf d.dists) ⟨d.st, d.failed⟩ op
+  ({ d with st := r.1.s, failed := r.1.failed }, foutStr r.2)
+
+def apply (d : DSt) (op : Op) : DSt × String := fapply d (.base op)
+
+def parsePuts : List String → Option (List (Nat × Nat × RType))
+  | [] => some []
+  | k :: v :: rt :: rest =>
+    match k.toNat?, v.toNat?, parseRt rt, parsePuts rest with
+    | some k, some v, some rt, some l => some ((k, v, rt) :: l)
+    | _, _, _, _ => none
+  | _ => none
+
+/-- `lifo …`: the puts in order, then the tasks they spawned in the worker's order, whatever else is pending -/
+def lifo (d : DSt) (puts : List (Nat × Nat × RType)) : DSt × String :=
+  let dist := distOf d.dists
+  let r := puts.foldl (fun (acc : St × List String) p =>
+    let x := putVerified d.cfg dist acc.1 p.1 p.2.1 p.2.2
+    (x.1, acc.2 ++ [outStr (.put x.2)])) (d.st, [])
+  let ids := lifoOrder (spawnedIds d.st r.1)
+  let s' := ids.foldl (fun s i => (runTaskAny s i).1) r.1
+  ({ d with st := s' }, " ".intercalate r.2)
 
 def textStr (t : Text) : String := if t.isEmpty then "empty" else String.ofList (t.map Char.ofNat)
 
@@ -124,7 +161,7 @@ def startInterrupted (d : DSt) (id b : Nat) : DSt × String :=
   let i : Intr := ⟨idx, b, []⟩
   let r := nstep d.cfg (distOf d.dists) ⟨d.up, d.vfile, d.st⟩ (.start cur (some i))
   let killed := idx < effs.length && b < cur.length
-  ({ d with up := r.1.up, vfile := r.1.vfile, st := r.1.st },
+  ({ d with up := r.1.up, vfile := r.1.vfile, st := r.1.st, failed := [] },
     (if killed then "killed" else "exited") ++ " v=" ++ vfileStr r.1.vfile)
 
 def stepUp (d : DSt) (ws : List String) : DSt × String :=
@@ -190,6 +227,24 @@ def stepUp (d : DSt) (ws : List String) : DSt × String :=
     | _, _, _ => (d, "bad-op")
   | ["remove", k] => match k.toNat? with | some k => apply d (.remove k) | none => (d, "bad-op")
   | ["run", i] => match i.toNat? with | some i => apply d (.run i) | none => (d, "bad-op")
+  | ["runfail", i, "open"] => match i.toNat? with | some i => fapply d (.runFail i .openFail) | none => (d, "bad-op")
+  | ["runfail", i, "full", b] =>
+    match i.toNat?, b.toNat? with
+    | some i, some b => fapply d (.runFail i (.full b))
+    | _, _ => (d, "bad-op")
+  | ["runany", i] =>
+    match i.toNat? with
+    | some i => let r := runTaskAny d.st i; ({ d with st := r.1 }, outStr (.run r.2))
+    | none => (d, "bad-op")
+  | "lifo" :: rest =>
+    match parsePuts rest with
+    | some (p :: ps) => lifo d (p :: ps)
+    | _ => (d, "bad-op")
+  | ["foreign", _, _] => (d, "ok")   -- replay-only probe outside the model (assumption: no foreign files)
+  | ["flen", k] =>
+    match k.toNat? with
+    | some k => (d, match lookup k d.st.disk with | none => "absent" | some f => s!"{fileLen d.cfg.encrypt f}")
+    | none => (d, "bad-op")
   | ["deliver", i] => match i.toNat? with | some i => apply d (.deliver i) | none => (d, "bad-op")
   | ["setrange", r] => match r.toNat? with | some r => apply d (.setRange r) | none => (d, "bad-op")
   | ["cleanup"] => apply d .cleanup
@@ -239,7 +294,7 @@ def step (d : DSt) (ws : List String) : DSt × String :=
     match n.toNat? with
     | some id =>
       let r := nstep d.cfg (distOf d.dists) ⟨d.up, d.vfile, d.st⟩ (.start (idText id) none)
-      ({ d with up := r.1.up, vfile := r.1.vfile, st := r.1.st }, "started v=" ++ vfileStr r.1.vfile)
+      ({ d with up := r.1.up, vfile := r.1.vfile, st := r.1.st, failed := [] }, "started v=" ++ vfileStr r.1.vfile)
     | none => (d, "bad-op")
   | ["start", n, "interrupt"] =>
     if d.cmd then (d, "bad-op") else
